@@ -32,6 +32,67 @@ def tlay(own, ax):
     return None
 
 
+def vlay(v, own, ax):
+    """Order of a table value along an axis: an established layout on the
+    value (sort_order result, guard refinement) wins over the opaque symbol
+    of the owner."""
+    if v is not None and v.k == 'table' and isinstance(v.lay, tuple) and \
+            len(v.lay) == 2 and ax in (O, S) and \
+            v.lay[0 if ax == O else 1] is not None:
+        return v.lay[0 if ax == O else 1]
+    return tlay(own, ax)
+
+
+def _tbl_lay(v, own):
+    return (vlay(v, own, O), vlay(v, own, S))
+
+
+INT_WORDS = ('int', 'uint', 'i1', 'i2', 'i4', 'i8', 'u1', 'u2', 'u4', 'u8',
+             '<i', '<u', 'longlong', 'intp', 'intc')
+DT_NAMES = {'int': 'int', 'np.int8': 'int', 'np.int16': 'int',
+            'np.int32': 'int', 'np.int64': 'int', 'np.intp': 'int',
+            'np.intc': 'int', 'np.int_': 'int', 'np.uint8': 'int',
+            'np.uint16': 'int', 'np.uint32': 'int', 'np.uint64': 'int',
+            'np.integer': 'int', 'np.longlong': 'int',
+            'float': 'float', 'np.float64': 'float', 'np.double': 'float',
+            'np.float_': 'float', 'np.floating': 'float',
+            'np.longdouble': 'float',
+            'np.float32': 'narrow', 'np.float16': 'narrow',
+            'np.half': 'narrow', 'np.single': 'narrow'}
+
+
+def dtc(v):
+    """dtype class of an abstract value: 'int' | 'float' | 'narrow' |
+    'mixed' | None."""
+    if v is None:
+        return None
+    if v.k == 'dtype':
+        return v.c
+    if v.k == 'const' and isinstance(v.c, str):
+        w = v.c.lower()
+        if w.startswith(INT_WORDS):
+            return 'int'
+        if w in ('float', 'float64', 'f8', 'd', '<f8', 'double'):
+            return 'float'
+        if w in ('float32', 'float16', 'f4', 'f2', '<f4', 'single', 'half'):
+            return 'narrow'
+    return None
+
+
+def _join_lay(a, b):
+    if a == b:
+        return a
+    if a is None or b is None:
+        return None
+    if a[0] == 'tbl' or b[0] == 'tbl':
+        return None         # "whatever order that table has": not comparable
+    if a and a[0] == 'conflict':
+        return a
+    if b and b[0] == 'conflict':
+        return b
+    return ('conflict', a, b)
+
+
 class V:
     __slots__ = ('k', 'ax', 'own', 'maj', 'flip', 'elts', 'c', 'el', 'node',
                  'fresh', 'lay', 'ref')
@@ -104,6 +165,24 @@ def join(a, b):
     if a.k == b.k and a.k in ('ids', 'md', 'index') and a.ax and b.ax \
             and a.ax != b.ax:
         return V(a.k, ax=None, c=('conflict', a.ax, b.ax))
+    if dtc(a) and dtc(b):
+        return V('dtype', c=dtc(a) if dtc(a) == dtc(b) else 'mixed')
+    if a.k == b.k and a.k in ('table', 'matrix') and (
+            isinstance(a.lay, tuple) and len(a.lay) == 2 or
+            isinstance(b.lay, tuple) and len(b.lay) == 2):
+        la = _tbl_lay(a, a.own) if a.k == 'table' else (
+            a.lay if isinstance(a.lay, tuple) and len(a.lay) == 2
+            else (None, None))
+        lb = _tbl_lay(b, b.own) if b.k == 'table' else (
+            b.lay if isinstance(b.lay, tuple) and len(b.lay) == 2
+            else (None, None))
+        lay = (_join_lay(la[0], lb[0]), _join_lay(la[1], lb[1]))
+        return V(a.k, ax=a.ax if a.ax == b.ax else None,
+                 own=a.own if a.own == b.own else None,
+                 maj=a.maj if a.maj == b.maj else None,
+                 flip=a.flip if a.flip == b.flip else False,
+                 c=a.c if a.c == b.c else None,
+                 lay=lay if any(lay) else None)
     if a.k == b.k and a.k not in ('const', 'tuple', 'list', 'recdict'):
         return V(a.k, ax=a.ax if a.ax == b.ax else None,
                  own=a.own if a.own == b.own else None,
@@ -192,7 +271,11 @@ def _sym(l):
         return '?'
     if l[0] == 'tbl':
         return "%s's %s order" % (l[1], NAMEAX.get(l[2], l[2]))
-    return "`%s`" % l[-1]
+    if l[0] == 'conflict':
+        return 'either %s or %s' % (_sym(l[1]), _sym(l[2]))
+    if l[0] == 'nat':
+        return 'natural sort of %s' % (l[1],)
+    return "`%s`" % l[1]
 
 
 class Sink:
@@ -307,6 +390,41 @@ class AxisInterp:
                               'ok', 'the lookup of the replaced ids is '
                               'rebuilt before the exit')
 
+    def refine_order(self, test, env):
+        """`if (X.ids(axis=A) == L).all():` establishes, inside the branch,
+        that table X is laid out along A in the order of L."""
+        t = test
+        if not (isinstance(t, ast.Call) and isinstance(t.func, ast.Attribute)
+                and t.func.attr == 'all' and not t.args):
+            if isinstance(t, ast.Call) and call_name(t) in (
+                    'np.array_equal', 'array_equal') and len(t.args) == 2:
+                l, r = t.args
+            else:
+                return env
+        else:
+            c = t.func.value
+            if not (isinstance(c, ast.Compare) and len(c.ops) == 1 and
+                    isinstance(c.ops[0], ast.Eq)):
+                return env
+            l, r = c.left, c.comparators[0]
+        for x, y in ((l, r), (r, l)):
+            if isinstance(x, ast.Call) and isinstance(x.func, ast.Attribute) \
+                    and x.func.attr == 'ids' and isinstance(
+                        x.func.value, ast.Name):
+                name = x.func.value.id
+                tv = env.get(name)
+                if tv is None or tv.k != 'table':
+                    continue
+                xv = self.ev(x, env)
+                yv = self.ev(y, env)
+                if xv.k == 'ids' and xv.ax in (O, S) and yv.lay and \
+                        yv.lay[0] in ('loc', 'tbl', 'nat'):
+                    own = self.named_owner(tv, x.func.value, env)
+                    cur = list(_tbl_lay(tv, own))
+                    cur[0 if xv.ax == O else 1] = yv.lay
+                    env[name] = tv.with_(lay=tuple(cur), own=tv.own or own)
+        return env
+
     # ---- statements ---------------------------------------------------
     def block(self, stmts, env):
         for st in stmts:
@@ -383,7 +501,8 @@ class AxisInterp:
                 self.assign(t, val, env, st)
             return env
         if isinstance(st, ast.AugAssign):
-            self.ev(st.value, env)
+            val = self.ev(st.value, env)
+            self.dtype_store(st, st.target, val, env)
             return env
         if isinstance(st, ast.AnnAssign):
             if st.value is not None:
@@ -396,7 +515,7 @@ class AxisInterp:
                 return self.block(st.body, env)
             if t is False:
                 return self.block(st.orelse, env)
-            a = self.block(st.body, dict(env))
+            a = self.block(st.body, self.refine_order(st.test, dict(env)))
             b = self.block(st.orelse, dict(env))
             return self.join_env(a, b)
         if isinstance(st, (ast.For, ast.AsyncFor)):
@@ -493,6 +612,7 @@ class AxisInterp:
                 env[target.value.id] = V('recdict', elts=val.elts)
         elif isinstance(target, ast.Subscript):
             base = self.ev(target.value, env)
+            self.dtype_store(st, target, val, env)
             if base.k == 'per' and base.c == 'alloc' and base.ax:
                 idx = self.ev(target.slice, env)
                 if idx.k == 'pos1' and idx.ax:
@@ -672,8 +792,12 @@ class AxisInterp:
                 return env[e.id]
             if e.id in ('hstack', 'vstack', 'itemgetter'):
                 return V('const', c=e.id)
+            if e.id in DT_NAMES:
+                return V('dtype', c=DT_NAMES[e.id])
             return TOP
         if isinstance(e, ast.Attribute):
+            if dotted(e) in DT_NAMES:
+                return V('dtype', c=DT_NAMES[dotted(e)])
             return self.attribute(e, env)
         if isinstance(e, ast.Subscript):
             return self.subscript(e, env)
@@ -808,6 +932,9 @@ class AxisInterp:
                 lb = b if b.k == 'list' else V(
                     'list', el=b.elts[0] if b.elts else None)
                 return join(la, lb)
+            if isinstance(e.op, (ast.Add, ast.Mod)) and a.k == 'const' and \
+                    isinstance(a.c, str):
+                self.label_check(e, a.c, b)
             if isinstance(e.op, ast.Mod) and a.k == 'const' and \
                     isinstance(a.c, str):
                 if b.k == 'axis' and b.c:
@@ -919,18 +1046,23 @@ class AxisInterp:
         if base.k == 'table':
             if attr in self.FIELDS:
                 kind, ax = self.FIELDS[attr]
-                return V(kind, ax=ax, own=base.own, lay=tlay(base.own, ax))
+                return V(kind, ax=ax, own=base.own,
+                         lay=vlay(base, base.own, ax))
             if attr in ('_data', 'matrix_data'):
                 key = (dotted(e.value) or '') + '._data'
                 if key in env and env[key].k == 'matrix':
                     return env[key].with_(own=base.own)
                 return V('matrix', own=base.own,
-                         lay=(tlay(base.own, O), tlay(base.own, S)))
+                         lay=_tbl_lay(base, base.own))
             if attr == 'shape':
                 return V('tuple', elts=(V('len', ax=O, own=base.own),
                                         V('len', ax=S, own=base.own)),
                          c='shape')
-            if attr in ('type', 'table_id', 'dtype', 'nnz', 'create_date',
+            if attr == 'dtype':
+                return V('dtype', c='float')
+            if attr == 'nnz':
+                return V('len')
+            if attr in ('type', 'table_id', 'create_date',
                         'generated_by', 'format_version'):
                 return V('scalar')
             if attr == '__class__':
@@ -956,13 +1088,23 @@ class AxisInterp:
                 else:
                     self.sink('MAJOR', e, 'raw-%s' % attr, 'ok',
                               'layout fixed (%s-major)' % NAMEAX[base.maj])
-            if attr in ('data', 'indices', 'indptr', 'nnz', 'dtype'):
+            if attr == 'dtype':
+                return V('dtype', c='float') if base.own is not None \
+                    else V('raw')
+            if attr in ('data', 'indices', 'indptr', 'nnz'):
                 return V('raw')
             return V('mmethod', c=attr, el=base, node=e)
         if base.k in ('ids', 'per', 'md', 'list', 'pos'):
-            if attr in ('size', 'dtype'):
-                return V('len', ax=base.ax) if attr == 'size' else \
-                    V('scalar')
+            if attr == 'size':
+                return V('len', ax=base.ax)
+            if attr == 'dtype':
+                if base.k == 'ids':
+                    return V('dtype', c='idwidth', own=base.own, ax=base.ax)
+                return V('scalar')
+            if base.k == 'per' and attr == 'data':
+                return V('per', own=base.own, c='values')
+            if base.k == 'per' and attr == 'indices':
+                return V('pos', ax=base.ax)
             return V('cmethod', c=attr, el=base, node=e)
         if base.k == 'class' and attr in ('from_hdf5', 'from_json',
                                           'from_tsv', '_to_sparse'):
@@ -1252,6 +1394,13 @@ class AxisInterp:
             v = self.ev(e.args[0], env)
             return V('index', ax=v.ax if v.k == 'ids' else None, own=v.own,
                      lay=v.lay)
+        if name in ('locale.format_string', 'format_string') and \
+                len(e.args) >= 2:
+            return V('str', el=self.ev(e.args[1], env))
+        if name == 'str' and len(e.args) == 1:
+            v = self.ev(e.args[0], env)
+            if v.k == 'len':
+                return V('str', el=v)
         if name == 'len' and e.args:
             v = self.ev(e.args[0], env)
             if v.k in ('ids', 'md', 'per', 'list', 'pos', 'index') and v.ax:
@@ -1283,30 +1432,30 @@ class AxisInterp:
             return TOP
         if name in ('zeros', 'np.zeros', 'np.empty', 'np.ones') and e.args:
             v = self.ev(e.args[0], env)
+            dk = kwarg(e, 'dtype')
+            dv = self.ev(dk, env) if dk is not None else None
+            dt = V('dtype', c=dtc(dv), own=dv.own, ax=dv.ax) \
+                if dv is not None and dtc(dv) else None
             if v.k == 'len' and v.ax:
-                return V('per', ax=v.ax, c='alloc')
+                return V('per', ax=v.ax, c='alloc', el=dt)
             if v.k == 'tuple' and v.elts and len(v.elts) == 2 and any(
                     x.k == 'len' for x in v.elts):
                 return self.shape_tuple(e, v)
+            if dt is not None:
+                return V('per', c='alloc', el=dt)
             return TOP
         if name in ('csr_matrix', 'csc_matrix', 'coo_matrix',
                     'dok_matrix') and e.args:
             v = self.ev(e.args[0], env)
             for kw in e.keywords:
                 self.ev(kw.value, env)
-            maj = {'csr_matrix': O, 'csc_matrix': S}.get(name)
-            if v.k == 'matrix':
-                return v.with_(maj=maj, fresh=True)
-            if v.k == 'tuple' and v.elts and len(v.elts) == 2 and any(
-                    x.k == 'len' for x in v.elts):
-                return self.shape_tuple(e, v, maj)
-            shp = kwarg(e, 'shape')
-            if shp is not None:
-                sv = self.ev(shp, env)
-                if sv.k == 'tuple' and sv.elts and len(sv.elts) == 2 and \
-                        any(x.k == 'len' for x in sv.elts):
-                    return self.shape_tuple(e, sv, maj)
-            return V('matrix', maj=maj, fresh=True, c='unoriented')
+            dk = kwarg(e, 'dtype')
+            if dk is not None and name == 'dok_matrix':
+                dv = self.ev(dk, env)
+                if dtc(dv):
+                    res = self._sparse_ctor(e, name, v, env)
+                    return res.with_(el=V('dtype', c=dtc(dv)))
+            return self._sparse_ctor(e, name, v, env)
         if name in ('hstack', 'vstack') or (
                 isinstance(f, ast.Name) and f.id in env and
                 env[f.id].k == 'const' and env[f.id].c in ('hstack',
@@ -1414,6 +1563,80 @@ class AxisInterp:
                   'unresolved')
         return V('matrix', maj=maj, fresh=True, c='unoriented')
 
+    def label_check(self, e, text, val):
+        """'Num samples: ' + <count>: the axis named by a report label is
+        the axis of the count it is printed with (counts of a transposed
+        table are the other axis of the table that was passed in)."""
+        t = text.lower()
+        has_s, has_o = 'sample' in t, 'observation' in t
+        if has_s == has_o:
+            return
+        inner = val.el if val.k == 'str' and val.el is not None else val
+        if inner.k != 'len' or inner.ax not in (O, S) or not inner.own:
+            return
+        ax = inner.ax
+        if inner.own.endswith('\u1d40'):
+            ax = inv(ax)
+        want = S if has_s else O
+        self.sink('LABEL', e, 'label:%s' % text.strip().rstrip(':'),
+                  'ok' if ax == want else 'bad',
+                  'the label %r is printed with the number of %ss of the '
+                  'table passed in' % (text.strip(), NAMEAX[ax]))
+
+    def _sparse_ctor(self, e, name, v, env):
+        maj = {'csr_matrix': O, 'csc_matrix': S}.get(name)
+        if v.k == 'matrix':
+            return v.with_(maj=maj, fresh=True)
+        if v.k == 'tuple' and v.elts and len(v.elts) == 2 and any(
+                x.k == 'len' for x in v.elts):
+            return self.shape_tuple(e, v, maj)
+        shp = kwarg(e, 'shape')
+        if shp is not None:
+            sv = self.ev(shp, env)
+            if sv.k == 'tuple' and sv.elts and len(sv.elts) == 2 and \
+                    any(x.k == 'len' for x in sv.elts):
+                return self.shape_tuple(e, sv, maj)
+        return V('matrix', maj=maj, fresh=True, c='unoriented')
+
+    def dtype_store(self, st, target, val, env):
+        """A value stored into an array / accumulator allocated with an
+        explicit dtype."""
+        if not isinstance(target, ast.Subscript):
+            return
+        base = self.ev(target.value, env)
+        dt = base.el if base.k in ('per', 'matrix') and base.el is not None \
+            and base.el.k == 'dtype' else None
+        if dt is None:
+            return
+        name = dotted(target.value) or '?'
+        if dt.c in ('int', 'mixed', 'narrow'):
+            if val.k == 'scalar' or (val.k == 'per' and val.c != 'alloc'):
+                self.sink('DTYPE', st, 'store:%s' % name, 'bad',
+                          'matrix values (floating point) are stored into '
+                          '`%s`, which was allocated with %s dtype: the '
+                          'fraction is truncated'
+                          % (name, {'int': 'an integer',
+                                    'mixed': 'a possibly integer',
+                                    'narrow': 'a narrower float'}[dt.c]))
+            elif val.k in ('len', 'pos1', 'pos', 'bool') or (
+                    val.k == 'const' and isinstance(val.c, int)):
+                self.sink('DTYPE', st, 'store:%s' % name, 'ok',
+                          'counts / positions stored into an integer array')
+        elif dt.c == 'float':
+            if val.k in ('scalar', 'per', 'len', 'const'):
+                self.sink('DTYPE', st, 'store:%s' % name, 'ok',
+                          'stored into a float64 / table-dtype array')
+        elif dt.c == 'idwidth':
+            if val.k in ('ids', 'id'):
+                same = val.k == 'ids' and val.own and val.own == dt.own and \
+                    val.ax == dt.ax
+                self.sink('DTYPE', st, 'store:%s' % name,
+                          'ok' if same else 'bad',
+                          'ids are stored into `%s`, allocated with the '
+                          'fixed-width dtype of the ids of table %r: a '
+                          'longer id from another table is truncated'
+                          % (name, dt.own))
+
     def stack(self, e, which, env):
         arg = self.ev(e.args[0], env) if e.args else TOP
         mats = []
@@ -1437,8 +1660,24 @@ class AxisInterp:
             # hstack grows columns, vstack grows rows
             rows_ax, cols_ax = (S, O) if flip else (O, S)
             grows = cols_ax if which == 'hstack' else rows_ax
+        lay = None
+        if grows in (O, S) and mats:
+            keep = inv(grows)
+            d = 0 if keep == O else 1
+            cur = Ellipsis
+            for m in mats:
+                ml = m.lay[d] if m.k == 'matrix' and isinstance(
+                    m.lay, tuple) and len(m.lay) == 2 else None
+                if cur is Ellipsis:
+                    cur = ml
+                elif cur is None or ml is None:
+                    cur = None
+                else:
+                    cur = _join_lay(cur, ml)
+            if cur is not Ellipsis and cur is not None:
+                lay = (cur, None) if keep == O else (None, cur)
         return V('matrix', flip=bool(flip), fresh=True,
-                 c=('grows', which, grows))
+                 c=('grows', which, grows), lay=lay)
 
     def call_local(self, fv, e, env):
         node = fv.node
@@ -1525,7 +1764,7 @@ class AxisInterp:
             sym = ('sym', an.id) if ax not in (O, S) and isinstance(
                 an, ast.Name) else None
             return V('ids', ax=ax if ax in (O, S) else None, own=own, c=sym,
-                     lay=tlay(own, ax))
+                     lay=vlay(recv, own, ax))
         if meth == 'metadata':
             ax, _ = self.axis_arg(e, meth, env, 1)
             idn = kwarg(e, 'id') or (args[0] if args else None)
@@ -1535,22 +1774,22 @@ class AxisInterp:
                 self.id_check(e, idv, ax, 'metadata(id, axis)')
                 return V('md1', ax=ax if ax in (O, S) else None, own=own)
             return V('md', ax=ax if ax in (O, S) else None, own=own,
-                     lay=tlay(own, ax))
+                     lay=vlay(recv, own, ax))
         if meth == '_index':
             ax, _ = self.axis_arg(e, meth, env, 0)
             return V('index', ax=ax if ax in (O, S) else None, own=own,
-                     lay=tlay(own, ax))
+                     lay=vlay(recv, own, ax))
         if meth in ('index', 'exists', 'data'):
             ax, _ = self.axis_arg(e, meth, env, 1)
             idv = self.ev(args[0], env) if args else None
             self.id_check(e, idv, ax, '%s(id, axis)' % meth)
             if meth == 'index':
                 return V('pos1', ax=ax if ax in (O, S) else None, own=own,
-                         ref=tlay(own, ax))
+                         ref=vlay(recv, own, ax))
             if meth == 'exists':
                 return V('bool')
             return V('per', ax=inv(ax) if ax in (O, S) else None, own=own,
-                     lay=tlay(own, inv(ax) if ax in (O, S) else None))
+                     lay=vlay(recv, own, inv(ax) if ax in (O, S) else None))
         if meth == 'length':
             ax, _ = self.axis_arg(e, meth, env, 0)
             return V('len', ax=ax if ax in (O, S) else None, own=own)
@@ -1598,7 +1837,9 @@ class AxisInterp:
         if meth == 'copy':
             return V('table', own=own + "'" if own else None, fresh=True)
         if meth == 'transpose':
-            return V('table', own=None, fresh=True, c='transposed')
+            return V('table', own=own + '\u1d40' if own and not
+                     own.endswith('\u1d40') else None, fresh=True,
+                     c='transposed')
         if meth == 'partition':
             ax, _ = self.axis_arg(e, meth, env, 1)
             for a in args:
@@ -1622,7 +1863,25 @@ class AxisInterp:
                           'ids of axis variable %s are ordered along axis '
                           'variable %s' % (order.c[1], an.id))
             self.id_check(e, order, ax, 'sort_order(order, axis)')
-            return V('table', own=None, fresh=True)
+            lay = None
+            if ax in (O, S):
+                ol = order.lay if order is not None and order.lay and \
+                    order.lay[0] in ('loc', 'tbl', 'nat') else None
+                other = vlay(recv, own, inv(ax))
+                lay = (ol, other) if ax == O else (other, ol)
+                if not any(lay):
+                    lay = None
+            return V('table', own=None, fresh=True, lay=lay)
+        if meth == 'sort':
+            ax, _ = self.axis_arg(e, meth, env, 1)
+            for a in args:
+                self.ev(a, env)
+            lay = None
+            if ax in (O, S) and not args and kwarg(e, 'sort_f') is None:
+                nl = ('nat', own or '?', ax)
+                other = vlay(recv, own, inv(ax))
+                lay = (nl, other) if ax == O else (other, nl)
+            return V('table', own=None, fresh=True, lay=lay)
         if meth == 'filter':
             ax, _ = self.axis_arg(e, meth, env, 1)
             keep = self.ev(args[0], env) if args else None
